@@ -398,6 +398,10 @@ bool ManifestParser::ParseEdge(string* err) {
         remove(edge->inputs_.begin(), edge->inputs_.end(), out);
     if (new_end != edge->inputs_.end()) {
       edge->inputs_.erase(new_end, edge->inputs_.end());
+      // The output is no longer an input of its own edge: forget the
+      // out-edge State::AddIn() registered, or Plan::CleanNode() follows it
+      // from the node back to the same edge and never returns.
+      out->RemoveOutEdge(edge);
       if (!quiet_) {
         Warning("phony target '%s' names itself as an input; "
                 "ignoring [-w phonycycle=warn]",
